@@ -3,4 +3,6 @@ package props
 
 import (
 	_ "verif/harness/props/c09"
+	_ "verif/harness/props/c12"
+	_ "verif/harness/props/c15"
 )
